@@ -86,6 +86,19 @@ EXTRA = {
  "C18": " Block headers of two writers of which one works inside the other's sink Write (side activity, xz in xz).",
 }
 
+EXTRA2 = {
+ "C01": " Writers in front of *bufio.Writer / *bytes.Buffer, caller's buffer overwritten after each Write, small streams also through an io.Pipe between writer and reader.",
+ "C04": " Modified streams are also read from the concrete source types of production (buffered readers of three sizes over a source delivering in pieces, a real file, io.Pipe with and without zero-length writes); read buffers are windows with canaries behind them.",
+ "C05": " Prefixes are also read from buffered readers, a real file and an io.Pipe (every cut near a stream or padding boundary, elsewhere every fifth).",
+ "C06": " Writers in front of *bufio.Writer (small buffers included) and *bytes.Buffer; caller's buffer overwritten after each Write.",
+ "C08": " Every ninth history and the flush-at-2-MiB histories write into a real *os.File.",
+ "C11": " Sources that return (0, nil) now and then; read buffers are windows with canaries behind them.",
+ "C13": " Further source kinds: a real file, buffered readers of three sizes, io.Pipe, bytes.Buffer, strings.Reader; read buffers are windows of larger arrays with canaries.",
+ "C14": " Concurrent readers read into guarded windows and into neighbouring windows of one arena.",
+ "C15": " FIFO without writer and /dev/null among the arguments (a blocked run is recognised by the process state in open(2), read from /proc).",
+ "C17": " Runs and X||X also through the classic lzma.Writer with capacities off the 2^n grid.",
+}
+
 def main():
     props = [json.loads(l) for l in open(os.path.join(V, "properties.jsonl"))]
     checks = []
@@ -101,7 +114,7 @@ def main():
                 "evidence_file": f"/verif/evidence/{i}.json",
                 "replay_cmd_template": f"./check {i} --replay {{path}}",
                 "engine": "vcheck",
-                "level_claimed": {"category": cat, "text": text + EXTRA.get(i, ""), "design_ref": "DESIGN.md section " + ref},
+                "level_claimed": {"category": cat, "text": text + EXTRA.get(i, "") + EXTRA2.get(i, ""), "design_ref": "DESIGN.md section " + ref},
                 "level_note": note,
                 "technique": tech,
             })
